@@ -36,6 +36,7 @@ class ExceptionVisitor:
         context.add_import("httpx", "Response")  # Third-party import first (Ruff I001)
         context.add_import(f"{context.core_package_name}.exceptions", "ClientError")
         context.add_import(f"{context.core_package_name}.exceptions", "ServerError")
+        context.add_import(f"{context.core_package_name}.exceptions", "response_text")
 
         # Collect unique numeric error status codes (4xx and 5xx only)
         all_codes = {
@@ -73,7 +74,9 @@ class ExceptionVisitor:
                 "    Args:",
                 "        response: The httpx Response object that triggered this exception",
                 '    """',
-                "    super().__init__(status_code=response.status_code, message=response.text, response=response)",
+                "    super().__init__(",
+                "        status_code=response.status_code, message=response_text(response), response=response",
+                "    )",
             ]
 
             exception_code = self.renderer.render_class(
